@@ -1,5 +1,6 @@
 import Std.Data.HashMap
 import Rbp.Model.Block
+import Rbp.Model.F64
 namespace CB
 open W Csv Std
 
@@ -114,9 +115,19 @@ def balancePanics (m : HashMap Bytes Unspent) : Bool := (balanceMap m).toList.an
 def insertedCount (ver : UInt8) (bs : List EBlock) : Nat :=
   (bs.flatMap (·.blk.txs)).foldl (fun a t => a + (t.outs.filter fun o => (S.eval ver o.script).address.isSome).length) 0
 
+/-- the floating-point figures of the report, as printed (`{:.8}` / `{:.2}` of correctly rounded binary64 results) -/
+def figureLines (s : Stats) : List String :=
+  let ssum := s.sizes.foldl (·+·) 0
+  let gsum := s.gaps.foldl (·+·) 0
+  [s!"f_fees={F64.coins s.fees}", s!"f_volume={F64.coins s.volume}", s!"f_bigval={F64.coins s.bigVal.1}",
+   s!"f_avg_size={F64.meanOver ssum s.sizes.length 1024}", s!"f_avg_time={F64.meanOver gsum s.gaps.length 60}",
+   s!"f_avg_txs={F64.ratio s.txs s.blocks}", s!"f_avg_ins={F64.ratio s.ins s.txs}", s!"f_avg_outs={F64.ratio s.outs s.txs}",
+   s!"f_avg_value={F64.valuePerOutput s.volume s.outs}"] ++
+  s.types.map fun (n, c, _, _) => s!"share {n} {F64.share c s.outs}"
+
 def statsLines (s : Stats) : List String :=
   [s!"blocks={s.blocks}", s!"txs={s.txs}", s!"ins={s.ins}", s!"outs={s.outs}", s!"fees={s.fees}", s!"volume={s.volume}",
    s!"bigval={s.bigVal.1}@{s.bigVal.2.1}:{hashHex s.bigVal.2.2}", s!"bigsize={s.bigSize.1}@{s.bigSize.2.1}:{hashHex s.bigSize.2.2}",
    s!"sizesum={s.sizes.foldl (·+·) 0}/{s.sizes.length}", s!"gapsum={s.gaps.foldl (·+·) 0}/{s.gaps.length}"] ++
-  s.types.map fun (n, c, h, id) => s!"type {n} {c} {h} {hashHex id}"
+  (s.types.map fun (n, c, h, id) => s!"type {n} {c} {h} {hashHex id}") ++ figureLines s
 end CB
